@@ -23,6 +23,7 @@ class Session:
         self.timeout_ms = timeout_ms
         self.cross = cross
         self.queries = 0
+        self.rewritten = 0  # equalities already decided by z3's term rewriter (identical normal forms): no check-sat needed
         self.solver_s = 0.0
         self.unknown = []
         self.failed = []  # (label, model description)
@@ -97,6 +98,8 @@ class Session:
         else:
             v = "discharged"
         out = {"verdict": v, "queries": self.queries, "solver_s": round(self.solver_s, 3)}
+        if self.rewritten:
+            out["decided_by_term_rewriting"] = self.rewritten
         if self.unknown:
             out["reason"] = "; ".join(self.unknown)[:600]
         if disagreements:
